@@ -1024,8 +1024,8 @@ theorem genesis_keeps_everything_else (x : XState) :
   have h := genesisCtl_frame genesisCarries x.st.ctl
   exact ⟨rfl, h.1, h.2.1, h.2.2.1, h.2.2.2.1⟩
 
-/-- when the genesis state carries the tracking records a history with round trips IS the history without them — every
-theorem of this file about `run init ops` then holds across restarts, for every configuration -/
+/-- when the genesis state carries the tracking records a history with round trips IS the history without them — every theorem
+of this file about `run init ops` then holds across restarts, for every configuration -/
 theorem genesis_carrying_records_is_invisible (cfg : Cfg) (xs : List XOp) :
     (xrunWith cfg true FxVerif.Gen.C19.appRecvProg xinit xs).st = runWith cfg init (xs.filterMap XOp.op?) :=
   xrun_carried cfg _ xs xinit
